@@ -225,7 +225,9 @@ class FlowCx:
             # several defs: short-circuit boolean temporaries (`a && b`) – describe as 'multi'
             subs = []
             for d in ds:
-                subs.append(self._cond_of_rv(d[3], neg, depth + 1))
+                c = self._cond_of_rv(d[3], neg, depth + 1)
+                c["def_block"] = d[0]
+                subs.append(c)
             return {"kind": "multi", "subs": subs, "neg": bool(neg)}
         return self._cond_of_rv(ds[0][3], neg, depth + 1)
 
@@ -321,6 +323,29 @@ class FlowCx:
             # but constant defs agree
             subs = [s for s in c["subs"] if s["kind"] != "const"]
             consts = [s for s in c["subs"] if s["kind"] == "const"]
+            if not subs and consts and not getattr(self, "_in_multi", False):
+                # `matches!(x, P)` / `a || b` lowered to a bool temp assigned constants in different arms:
+                # the temp has the wanted value only if control came through an arm assigning that value,
+                # so whatever holds in ALL such arms holds here.
+                def cval(k):
+                    v = str(k["val"]) in ("1", "true")
+                    return (not v) if k.get("neg") else v
+                arms = [k["def_block"] for k in consts if cval(k) == truth and "def_block" in k]
+                if arms:
+                    self._in_multi = True
+                    try:
+                        per = [self.facts_at(bk) for bk in arms]
+                    finally:
+                        self._in_multi = False
+                    def key(f):
+                        return (f[0], str(f[1]), str(f[2]) if not isinstance(f[2], (set, list)) else "", f[-1])
+                    common_keys = set(key(f) for f in per[0])
+                    for p_ in per[1:]:
+                        common_keys &= set(key(f) for f in p_)
+                    for f in per[0]:
+                        if key(f) in common_keys:
+                            out.append(f)
+                return out
             if truth and len(subs) == 1 and all(str(k["val"]) in ("0", "false") for k in consts):
                 s0 = subs[0]
                 if s0["kind"] == "cmp":
